@@ -719,10 +719,11 @@ MANIFEST = {
                   'a heap transformer.  Proved for all heaps, nodes and arguments (unbounded, by induction; no axioms): every '
                   'constructed tree satisfies the invariant (cached duration = recomputed, recorded position = position, '
                   'parent = lister); it is preserved by append_child of any fresh tree or copy (incl. the incremental cache '
-                  'patch along the parent chain), by the waveform / repetition_count / repetition_definition setters, by the '
+                  'patch along the parent chain), by __setitem__ with any integer index, by the waveform / repetition_count / repetition_definition setters, by the '
                   'memoising duration queries, hence by every finite history over these operations; the reset walk restores '
                   'it after any change below a node; Loop.__eq__ reads structure/counts/waveforms/measurements only.  '
-                  'NOT proved (C09_step_statement stays open): __setitem__ int/slice, unroll, unroll_children, '
+                  'A general regraft lemma (children list replaced by kept and fresh children) is proved.  NOT proved '
+                  '(C09_step_statement stays open): __setitem__ with a slice, unroll, unroll_children, '
                   'split_one_child, encapsulate, merge/cleanup, reverse_inplace, roll_constant_waveforms - for these the '
                   'invariant is evaluated on the real objects after every step of random and small-scope exhaustive '
                   'histories (check_spec) and the model is compared with the code step by step (check_corr).',
